@@ -630,7 +630,7 @@ func vRunConnScenario(sc *vScenario) (out []vOutEvent, info map[string]interface
 			s.mu.Lock()
 			defer s.mu.Unlock()
 			for _, a := range s.list {
-				if a.state == vStParked && (a.gate.pt == vpxStart || a.gate.pt == vpxBlockUntil) {
+				if a.state == vStParked && (a.gate.pt == vpxStart || a.gate.pt == vpxBlockUntil) && !strings.HasPrefix(a.name, "task") && !strings.HasPrefix(a.name, "hup") {
 					return false
 				}
 			}
@@ -650,12 +650,14 @@ func vRunConnScenario(sc *vScenario) (out []vOutEvent, info map[string]interface
 					fdPend = n
 				}
 			}
-			opst := int32(1)
+			opst, det := int32(1), int32(0)
 			if c.operator != nil {
 				opst = atomic.LoadInt32(&c.operator.state)
+				det = atomic.LoadInt32(&c.operator.detached)
 			}
 			return []int32{vLoad32(&c.keychain[flushing]), int32(len(c.writeTrigger)), int32(r.outLen()), int32(r.peerPending()), int32(tick),
-				int32(len(c.readTrigger)), int32(r.inLen()), int32(atomic.LoadInt64(&c.waitReadSize)), vLoad32(&c.keychain[closing]), opst, int32(rtick), int32(fdPend)}
+				int32(len(c.readTrigger)), int32(r.inLen()), int32(atomic.LoadInt64(&c.waitReadSize)), vLoad32(&c.keychain[closing]), opst, int32(rtick), int32(fdPend),
+				vLoad32(&c.keychain[connecting]), vLoad32(&c.keychain[processing]), atomic.LoadInt32(&c.state), det}
 		}
 	}
 	s.AddTimerEnv("rtimer", c, false, 2)
